@@ -28,8 +28,13 @@ package main
 //  M9      Slice2D: the operand is evaluated at a + x·U + y·V with (U, V) an orthonormal,
 //          right-handed frame of the plane through a with normal n - for each of the four
 //          branches that choose the in-plane x axis (n.X = 0, n.Y = 0, n.Z = 0, general)
+//  M10     Loft3D: the profile mix is a0 + k·(a1 − a0) with k = 0 at the bottom, 1 at the top,
+//          clamped to [0, 1] outside (a convex combination everywhere: C01's box relies on it)
+//  M11     the polynomial blend kernel, evaluated exactly on a rational grid: symmetric,
+//          min − k/4 <= poly <= min, equal to min once |a − b| >= k, non-decreasing and
+//          1-Lipschitz in each argument (no jump)
 //
-// Not decided: bounds of the polynomial blends, voxel interpolation weights,
+// Not decided: bounds of the other blends, voxel interpolation weights,
 // rotation matrix constructors (unit tests cover those), numerical accuracy.
 
 import (
@@ -201,6 +206,8 @@ func checkC02(ctx *Ctx, r *Report, tier string) {
 	checkInverses(ctx, r)
 	checkVoxelLattice(ctx, r)
 	checkSlice(ctx, r)
+	checkLoftMix(ctx, r, "M10")
+	checkPolyKernel(ctx, r, "M11")
 	checkFolds(ctx, r)
 	checkSawTooth(ctx, r)
 	checkCacheIdentity(ctx, r)
@@ -395,6 +402,16 @@ func analyseFold(t *Term) (*foldInfo, string) {
 			}
 		}
 		fi := &foldInfo{}
+		// the step is what one iteration does: the loop's own "index < len" test holds there
+		inLoop := map[string]bool{}
+		for _, c := range condAtoms(st) {
+			if c.Op == "cmp" && c.S == "<" && strings.Contains(c.Args[1].Key(), "len(") {
+				inLoop[c.Key()] = true
+			}
+		}
+		if len(inLoop) > 0 {
+			st = assume(st, inLoop)
+		}
 		// forms
 		body := st
 		if st.Op == "ite" {
@@ -421,7 +438,7 @@ func analyseFold(t *Term) (*foldInfo, string) {
 			fi.initInf = f > 1e300
 		}
 		if os.Getenv("VERIF_DEBUG") != "" {
-			fmt.Println("DEBUG analyseFold init", shortKey(init0.Key(), 160), "| X", shortKey(fi.X.Key(), 160))
+			fmt.Println("DEBUG analyseFold init", shortKey(init0.Key(), 160), "| X", shortKey(fi.X.Key(), 160), "| step", shortKey(st.Key(), 600))
 		}
 		// the first iteration peeled off: the running value starts as the operand with index 0
 		// and the loop folds in the operands from index 1 on
@@ -1333,4 +1350,225 @@ func checkSlice(ctx *Ctx, r *Report) {
 		r.check("M9", key+"|right-handed", fn.Pos(), okHand, "(U × V)·n > 0: the slice is seen from the side the normal points to, not mirrored")
 	}
 	r.floor("M9", 20)
+}
+
+// ---------------------------------------------------------------- M10: the loft's profile mix
+
+// checkLoftMix: in the composite of Loft3D and LoftSDF3.Evaluate the value whose sign selects
+// "inside the boundary" is the mix A of the two profile distances. With (a0, a1) = (0, 1) it is the
+// mix factor k(z) itself: it must be 0 at the bottom face, 1 at the top face, within [0, 1] and
+// non-decreasing for every z (sampled, exact arithmetic), and A must be the affine combination
+// a0 + k·(a1 − a0). An unclamped k extrapolates the profiles beyond the caps of a rounded loft:
+// material outside the hull of the two profile boxes.
+func checkLoftMix(ctx *Ctx, r *Report, rule string) {
+	fn := ctx.ssaFunc("sdf", "Loft3D")
+	if fn == nil {
+		r.undecided(rule, "Loft3D", 0, "not found")
+		return
+	}
+	alts, _ := ctorAlts(ctx, fn)
+	if len(alts) != 1 {
+		r.undecided(rule, "Loft3D", fn.Pos(), fmt.Sprintf("%d object-building alternatives", len(alts)))
+		return
+	}
+	res, _, err := composeMethod(ctx, alts[0], "Evaluate")
+	t, _ := res.(*Term)
+	if err != nil || t == nil {
+		r.undecided(rule, "Loft3D", fn.Pos(), "cannot compose constructor and Evaluate")
+		return
+	}
+	isOp := func(x *Term, op string) bool {
+		return x.Op == "call" && x.S == op+".Evaluate"
+	}
+	op0, op1 := paramName(fn, 0), paramName(fn, 1)
+	// the mixed value: the left side of a sign test that mentions both profiles
+	var mixT *Term
+	for _, c := range findSub(t, func(x *Term) bool { return x.Op == "cmp" && (x.S == "<" || x.S == ">" || x.S == "<=" || x.S == ">=") }) {
+		for i := 0; i < 2; i++ {
+			if c.Args[1-i].IsZero() && len(findSub(c.Args[i], func(x *Term) bool { return isOp(x, op0) })) > 0 && len(findSub(c.Args[i], func(x *Term) bool { return isOp(x, op1) })) > 0 {
+				mixT = c.Args[i]
+			}
+		}
+	}
+	if mixT == nil {
+		r.undecided(rule, "Loft3D", fn.Pos(), "no sign test of a value mixing both profiles in the composite: "+shortKey(t.Key(), 200))
+		return
+	}
+	at := func(v0, v1 *Term) *Term {
+		return rebuild(mixT, func(x *Term) *Term {
+			switch {
+			case isOp(x, op0):
+				return v0
+			case isOp(x, op1):
+				return v1
+			}
+			return nil
+		})
+	}
+	k := at(K(0), K(1))
+	okAff := equalRat(mixT, Add(opEval(op0, A("p.X"), A("p.Y")), Mul(k, Sub(opEval(op1, A("p.X"), A("p.Y")), opEval(op0, A("p.X"), A("p.Y"))))))
+	r.check(rule, "Loft3D|mix-is-an-affine-combination-of-the-two-profiles", fn.Pos(), okAff, "A = a0 + k·(a1 − a0); A = "+shortKey(mixT.Key(), 200))
+	// k(z) on samples: height 10, round 1 -> stored half height H = 4
+	hN, rN := paramName(fn, 2), paramName(fn, 3)
+	bad := ""
+	prev := big.NewRat(-1, 1)
+	n := 0
+	for _, z := range []int64{-12, -8, -5, -4, -3, -2, 0, 1, 2, 4, 5, 9, 40} {
+		env := map[string]*big.Rat{"p.Z": big.NewRat(z, 1), "p.X": big.NewRat(0, 1), "p.Y": big.NewRat(0, 1), hN: big.NewRat(10, 1), rN: big.NewRat(1, 1)}
+		var kv *big.Rat
+		func() {
+			defer func() {
+				if recover() != nil {
+					kv = nil
+				}
+			}()
+			kv = evalT(k, env)
+		}()
+		if kv == nil {
+			r.undecided(rule, "Loft3D|mix-factor", fn.Pos(), "the mix factor is not an arithmetic function of z: "+shortKey(k.Key(), 160))
+			return
+		}
+		n++
+		want := ""
+		switch {
+		case z <= -4 && kv.Sign() != 0:
+			want = "0 at and below the bottom face"
+		case z >= 4 && kv.Cmp(big.NewRat(1, 1)) != 0:
+			want = "1 at and above the top face"
+		case kv.Sign() < 0 || kv.Cmp(big.NewRat(1, 1)) > 0:
+			want = "within [0, 1]"
+		case kv.Cmp(prev) < 0:
+			want = "non-decreasing in z"
+		}
+		if want != "" && len(bad) < 300 {
+			bad += fmt.Sprintf(" z=%d (faces at ±4): k = %s, expected %s;", z, kv.RatString(), want)
+		}
+		prev = kv
+	}
+	r.check(rule, "Loft3D|mix-factor-runs-from-0-to-1-and-is-clamped", fn.Pos(), bad == "", fmt.Sprintf("%d heights, exact arithmetic on the closed form of k(z);%s", n, bad))
+	r.floor(rule, 2)
+}
+
+// ---------------------------------------------------------------- M11: the polynomial blend kernel
+
+// checkPolyKernel evaluates the closed form of sdf.poly(a, b, k) exactly on a rational grid:
+// k in {1, 1/2, 3}, a in {0, 5/4, -2}, d = b - a from -2k to 2k in steps of k/64.
+func checkPolyKernel(ctx *Ctx, r *Report, rule string) {
+	// the kernel is taken through the public constructor: PolyMin(k) returns a function value
+	// (a closure over k, a bound method of a small type ...), which is applied to symbolic a, b
+	blend := func(ctor string) (*Term, *ssa.Function) {
+		fn := ctx.ssaFunc("sdf", ctor)
+		if fn == nil || len(fn.Params) != 1 {
+			return nil, fn
+		}
+		ev := newEval(ctx)
+		res, _ := ev.evalRoot(fn)
+		fv, ok := res.(*FuncV)
+		if !ok || fv.Fn == nil {
+			return nil, fn
+		}
+		ev2 := newEval(ctx)
+		st := State{mem: map[*Obj]Val{}}
+		out := ev2.Call(fv.Fn, []Val{A("a"), A("b")}, fv.Free, &st)
+		t, _ := out.(*Term)
+		if ev2.Exceeded {
+			return nil, fn
+		}
+		return t, fn
+	}
+	t, fn := blend("PolyMin")
+	if fn == nil {
+		r.undecided(rule, "PolyMin", 0, "not found")
+		return
+	}
+	if t == nil {
+		r.undecided(rule, "PolyMin", fn.Pos(), "PolyMin(k) does not evaluate to a function with a closed form")
+		return
+	}
+	tMax, _ := blend("PolyMax")
+	value := func(env map[string]*big.Rat) (v *big.Rat) {
+		defer func() {
+			if recover() != nil {
+				v = nil
+			}
+		}()
+		return evalT(t, env)
+	}
+	valueMax := func(env map[string]*big.Rat) (v *big.Rat) {
+		defer func() {
+			if recover() != nil {
+				v = nil
+			}
+		}()
+		if tMax == nil {
+			return nil
+		}
+		return evalT(tMax, env)
+	}
+	aN, bN, kN := "a", "b", paramName(fn, 0)
+	bad := map[string]string{}
+	note := func(what, msg string) {
+		if bad[what] == "" {
+			bad[what] = msg
+		}
+	}
+	n := 0
+	q := func(a, b int64) *big.Rat { return big.NewRat(a, b) }
+	for _, kv := range []*big.Rat{q(1, 1), q(1, 2), q(3, 1)} {
+		step := new(big.Rat).Mul(kv, q(1, 64))
+		quarter := new(big.Rat).Mul(kv, q(1, 4))
+		for _, av := range []*big.Rat{q(0, 1), q(5, 4), q(-2, 1)} {
+			var prev *big.Rat
+			for i := int64(-128); i <= 128; i++ {
+				d := new(big.Rat).Mul(step, q(i, 1))
+				bv := new(big.Rat).Add(av, d)
+				v := value(map[string]*big.Rat{aN: av, bN: bv, kN: kv})
+				w := value(map[string]*big.Rat{aN: bv, bN: av, kN: kv})
+				if v == nil || w == nil {
+					r.undecided(rule, "PolyMin", fn.Pos(), "the kernel is not an arithmetic function of its arguments")
+					return
+				}
+				n++
+				mn := av
+				if bv.Cmp(av) < 0 {
+					mn = bv
+				}
+				at := fmt.Sprintf("a=%s b=%s k=%s: poly=%s", av.RatString(), bv.RatString(), kv.RatString(), v.RatString())
+				if v.Cmp(w) != 0 {
+					note("symmetric", at+" but poly(b,a)="+w.RatString())
+				}
+				if tMax != nil {
+					// PolyMax(k)(x, y) = -PolyMin(k)(-x, -y)
+					mx := valueMax(map[string]*big.Rat{aN: new(big.Rat).Neg(av), bN: new(big.Rat).Neg(bv), kN: kv})
+					if mx == nil || new(big.Rat).Neg(mx).Cmp(v) != 0 {
+						note("PolyMax-is-the-mirror-image", at+" but PolyMax(-a,-b) is not its negative")
+					}
+				}
+				if v.Cmp(mn) > 0 {
+					note("never-above-the-minimum", at)
+				}
+				if new(big.Rat).Sub(mn, v).Cmp(quarter) > 0 {
+					note("at-most-k/4-below-the-minimum", at)
+				}
+				if new(big.Rat).Abs(d).Cmp(kv) >= 0 && v.Cmp(mn) != 0 {
+					note("plain-minimum-once-the-operands-differ-by-k", at)
+				}
+				if prev != nil {
+					dv := new(big.Rat).Sub(v, prev)
+					if dv.Sign() < 0 {
+						note("non-decreasing-in-each-argument", at+fmt.Sprintf(" after %s one step earlier", prev.RatString()))
+					}
+					if dv.Cmp(step) > 0 {
+						note("1-Lipschitz-in-each-argument", at+fmt.Sprintf(" after %s one step (%s) earlier: a jump", prev.RatString(), step.RatString()))
+					}
+				}
+				prev = v
+			}
+		}
+	}
+	r.Counts["poly_kernel_points"] = n
+	for _, what := range []string{"symmetric", "PolyMax-is-the-mirror-image", "never-above-the-minimum", "at-most-k/4-below-the-minimum", "plain-minimum-once-the-operands-differ-by-k", "non-decreasing-in-each-argument", "1-Lipschitz-in-each-argument"} {
+		r.check(rule, "PolyMin|"+what, fn.Pos(), bad[what] == "", fmt.Sprintf("%d grid points, exact rational evaluation of the closed form; %s", n, bad[what]))
+	}
+	r.floor(rule, 7)
 }
